@@ -1,8 +1,8 @@
 from driver import KaniUnit, VerusUnit, Harness as H
 ID = "C18"
 LEVEL = "other"
-UNITS = [VerusUnit("c18_scc", "c18_scc", rlimit=60)]
-EXPLANATION = ("the four functions of scc.rs extracted verbatim and verified by Verus for every graph: each (reverse_)depth_first_search call only grows the visited set, extends the stack by exactly the newly "
+UNITS = [VerusUnit("c18_scc", "c18_scc", rlimit=60), VerusUnit("c11_container", "c11_container", rlimit=60, clauses=r"r\.seq\(\)")]
+EXPLANATION = ("the adjacency the analysis walks: CompactOrderedHashMap::keys (unit c11_container, verbatim; behind Graph::out_edges / in_edges) yields every key of an adjacency map exactly once, slot i at position i, at every size; the four functions of scc.rs extracted verbatim and verified by Verus for every graph: each (reverse_)depth_first_search call only grows the visited set, extends the stack by exactly the newly "
                "visited vertices (each once) and leaves every successor of a newly visited vertex visited; all_strongly_connected_componenets returns a PARTITION of the vertex ids (every id in exactly one component, once); "
                "largest_strongly_connected_component returns one of the components and none is longer. NOT decided: that the classes are the strongly connected components (mutual reachability / maximality: the "
                "finishing-order argument of the two-pass algorithm), termination of the recursion, recursion depth")
